@@ -380,7 +380,12 @@ func (db *RockDB) SRem(ts int64, key []byte, args ...[]byte) (int64, error) {
 		return 0, err
 	}
 	if keyInfo.Expired {
-		// an expired collection is dead: nothing to remove
+		// an expired collection is dead: nothing to remove (the members are checked as for a missing set)
+		for i := 0; i < len(args); i++ {
+			if err := checkCollKFSize(key, args[i]); err != nil {
+				return 0, err
+			}
+		}
 		return 0, nil
 	}
 	table := keyInfo.Table
